@@ -197,6 +197,9 @@ func RunCLI(bin, cwd, stdin string, extraEnv []string, args ...string) CLIResult
 	cmd := exec.CommandContext(ctx, bin, args...)
 	cmd.Dir = cwd
 	cmd.Env = append([]string{"CI=true", "HOME=" + cwd, "TMPDIR=" + os.TempDir(), "PATH=/usr/bin:/bin", "NO_COLOR=1"}, extraEnv...)
+	if v := os.Getenv("GOCOVERDIR"); v != "" {
+		cmd.Env = append(cmd.Env, "GOCOVERDIR="+v) // development aid: coverage of the code under test (bin/coverage.sh)
+	}
 	cmd.Stdin = strings.NewReader(stdin)
 	var so, se bytes.Buffer
 	cmd.Stdout, cmd.Stderr = &so, &se
